@@ -270,4 +270,7 @@ static int extra_modes(const WorkerOpts &o, Stats &stats) {
   return 0;
 }
 
-int main(int argc, char **argv) { return vf_main<Case>(argc, argv, "C15", gen_case, run_case, extra_modes); }
+int main(int argc, char **argv) {
+  g_history_enabled = true;  // process-history mode 2 (harness/vf.h): a shadow of the case runs first in the same process
+  return vf_main<Case>(argc, argv, "C15", gen_case, run_case, extra_modes);
+}
